@@ -11,6 +11,13 @@ def repo_hook_commits():
         return []
 
 CLAIMED = {
+    "C05": dict(
+        engine="libsim",
+        technique="deterministic simulation: adversarial heuristic and Rand seeds drawn from the seeded decision source, solver/consumer threads baton-scheduled over simulated unbounded/bounded/rendezvous channels; multiset oracle against truth-table semantics, termination as a loop-iteration budget, channel closure as scheduler deadlock detection",
+        text="Seeded search over ADFs x heuristics (built-ins, Rand under drawn seeds, a custom adversary that answers every call from the decision source = every search history such a heuristic can induce) x entry points x channel kinds x solver/consumer interleavings. Verdicts: delivered multiset equals the definitional stable / two-valued models (each once), the search ends within a counted iteration budget (bounded liveness in simulated steps, no wall clock), and the consumer loop ends (otherwise the scheduler reports a deadlock with a replayable schedule). Exploration-level evidence.",
+        design_ref="DESIGN.md 5.2",
+        note="Trusted: refsem oracle (self-tested on the repo's textbook examples), channel stub, scheduler, the tick hook (one added line in the search loop). Real: nogood_internal, all heuristics, NoGoodStore, parser/Bdd/bridge.",
+    ),
     "C19": dict(
         engine="libsim",
         technique="deterministic simulation: seeded random schedules over a baton-scheduled producer/relay/receiver on a simulated channel, peer-drop faults, prefix/found-flag/final-equality oracles on the recorded history",
@@ -21,7 +28,6 @@ CLAIMED = {
 }
 
 PENDING = {
-    "C05": "claimed in DESIGN.md 5.2; check under construction in this session (libsim nogood scenario) - not yet registered",
     "C06": "claimed (scoped) in DESIGN.md 5.5; check under construction - not yet registered",
     "C11": "claimed in DESIGN.md 5.3; check under construction - not yet registered",
     "C14": "claimed in DESIGN.md 5.4; check under construction - not yet registered",
